@@ -164,6 +164,10 @@ func (m *SubscribeMessage) Decode(src []byte) (int, error) {
 	}
 
 	//this.packetId = binary.BigEndian.Uint16(src[total:])
+	if m.remlen < 2 {
+		return total, fmt.Errorf("subscribe/Decode: Insufficient remaining length. Expecting at least %d, got %d", 2, m.remlen)
+	}
+
 	m.packetID = src[total : total+2]
 	total += 2
 
@@ -173,6 +177,10 @@ func (m *SubscribeMessage) Decode(src []byte) (int, error) {
 		total += n
 		if err != nil {
 			return total, err
+		}
+
+		if len(src[total:]) < 1 {
+			return total, fmt.Errorf("subscribe/Decode: Missing QoS byte for topic %d", len(m.topics))
 		}
 
 		m.topics = append(m.topics, t)
